@@ -30,7 +30,11 @@ EXCLUDE = {"core", "_", "verif_rt", "educe", "Ty", "Educe"}
 # written back as a generic argument without braces; std's derives fail on it the same way)
 # a const parameter named like a type that is in scope cannot be passed back as a generic argument (E0747); the
 # same happens to std's own derives
-CONST_EXCLUDE = {"Result", "Option", "Some", "None", "Ok", "Err", "Vec", "String", "Box"}
+CONST_EXCLUDE = {"Option", "Result", "Vec", "String", "Box", "Clone", "Copy", "Default", "Drop", "Eq", "Ord", "PartialEq",
+                 "PartialOrd", "Fn", "FnMut", "FnOnce", "From", "Into", "Iterator", "IntoIterator", "DoubleEndedIterator",
+                 "ExactSizeIterator", "Extend", "Send", "Sync", "Sized", "Unpin", "ToOwned", "ToString", "AsRef", "AsMut",
+                 "TryFrom", "TryInto", "FromIterator",   # the type-namespace names of the std prelude
+                 "Some", "None", "Ok", "Err"}             # prelude variants (they resolve in generic-argument position too)
 PRIMITIVES = set("bool char str u8 u16 u32 u64 u128 usize i8 i16 i32 i64 i128 isize f32 f64".split())
 
 IDENT_RE = re.compile(r"[A-Za-z_][A-Za-z0-9_]*")
@@ -45,13 +49,13 @@ def harvest(seed, n=300):
         text = S.render(td, rng, extras=False).replace("::educe::Educe", "Educe")
         feed.append(("h%d" % k, text))
     res = B.run_inproc(feed, items=False)
-    out_ids, in_ids = set(), set()
+    new_ids = set()
     for cid, text in feed:
         r = res.get(cid)
         if r and r.get("st") == "ok":
-            out_ids.update(IDENT_RE.findall(r["out"]))
-            in_ids.update(IDENT_RE.findall(text))
-    pool = sorted(i for i in out_ids - in_ids - KEYWORDS - EXCLUDE - PRIMITIVES if not re.fullmatch(r"\d.*", i))
+            # per request: what its expansion mentions that the request itself did not
+            new_ids.update(set(IDENT_RE.findall(r["out"])) - set(IDENT_RE.findall(text)))
+    pool = sorted(i for i in new_ids - KEYWORDS - EXCLUDE - PRIMITIVES if not re.fullmatch(r"\d.*", i))
     return pool
 
 
@@ -135,7 +139,7 @@ class PairNames:
 
     def field(self, rng):
         seq = ["x", self.prefix + "x", self.prefix * 2 + "x", "y", self.prefix + "y", self.prefix * 2 + "y", "z"]
-        n = seq[self.i % len(seq)]
+        n = seq[self.i] if self.i < len(seq) else "w%d" % self.i
         self.i += 1
         return n
 
